@@ -3,6 +3,7 @@
 package harness
 
 import (
+	"encoding/json"
 	"fmt"
 	"math"
 	"os"
@@ -1149,6 +1150,19 @@ var hostileDocs = []string{
 	`{"minSelfStakeRatio":"9223372036854775807"}`, `{"maxUpdatableStakeRatio":"9223372036854775807"}`, `{"maxIndividualStakeRatio":"1"}`,
 }
 
+var decodableDocs []string
+
+func decodableHostileDocs() []string {
+	if decodableDocs == nil {
+		for _, d := range hostileDocs {
+			if json.Unmarshal([]byte(d), &ctypes.GovParams{}) == nil {
+				decodableDocs = append(decodableDocs, d)
+			}
+		}
+	}
+	return decodableDocs
+}
+
 func (s *GenSource) genOption(w *World) []byte {
 	t := s.t
 	switch unif(t, 40, "optKind") {
@@ -1162,6 +1176,10 @@ func (s *GenSource) genOption(w *World) []byte {
 		return []byte(`{"maxValidatorCnt":3}`) // number instead of string: rejected by the decoder
 	}
 	if s.P.HostileDocsWide && pct(t, 35, "hostileDocWide") {
+		if pct(t, 75, "decodableHostileDoc") {
+			// those the application's own decoder accepts are the ones that can be voted through and applied
+			return []byte(pick(t, decodableHostileDocs(), "hostileDocDecodablePick"))
+		}
 		return []byte(pick(t, hostileDocs, "hostileDocWidePick"))
 	}
 	if s.P.HostileDocs && pct(t, 25, "hostileDoc") {
